@@ -20,11 +20,11 @@ def gen_case(rng, tdir):
     if r < 0.66:
         src = gen.gen_bytes(rng)
         family = rng.randrange(3)
-        variant = rng.choice([0, 1, 1, 1])
+        variant = rng.choice([0, 1, 1, 1, 2])
         if variant == 0 and fmt in (1, 6, 7, 8, 10):
             variant = 1        # binary results only make sense through to_data
-        dirgiven = rng.random() < 0.3
-        args = [src] + ([tdir] if dirgiven else [])
+        dirgiven = rng.random() < 0.3 or variant == 2
+        args = [src] + ([tdir] if dirgiven else []) + ([os.path.join(tdir, 'out', 'o%d' % rng.randrange(4))] if variant == 2 else [])
         return ('CONVERT', fmt, ext, lang, family | (variant << 4) | (int(dirgiven) << 8), args, 'convert')
     if r < 0.74:
         src = gen.gen_bytes(rng) if rng.random() < 0.5 else gen.amplifier_meta(rng)
@@ -82,6 +82,7 @@ def gen_case(rng, tdir):
 def make_tdir():
     t = tempfile.mkdtemp(prefix='mmdv-c01-', dir=D.SCRATCH_ROOT)
     os.makedirs(os.path.join(t, 'sub'))
+    os.makedirs(os.path.join(t, 'out'))
     files = {'a.txt': b'Title: inc\n\nincluded *a* {{b.md}}\n', 'b.md': b'b text\n', 'self.txt': b'me {{self.txt}}\n', 'c.html': b'<b>c</b>', 'c.tex': b'\\c', 'c.fodt': b'<c/>',
              'c.txt': b'ctxt', 'sub/d.txt': b'deep {{../a.txt}}\n', 'top.txt': b'{{a.txt}}', 'img.png': b'\x89PNG\r\n\x1a\n' + b'0' * 64, 'a.css': b'p{}'}
     for k, v in files.items():
